@@ -9,6 +9,8 @@ def inDomain (g : Guard) (v : JVal) : Bool :=
   | .str, .str _ => true
   | .strOrList, .str _ => true
   | .strOrList, .arr xs => xs.all isStr
+  | .strOrStrList, .str _ => true
+  | .strOrStrList, .arr xs => xs.all isStr
   | .strOrFloat, .str _ => true
   | .strOrFloat, .float r => !(["nan", "inf", "-inf"].contains r)
   | .bool, .bool _ => true
